@@ -238,6 +238,62 @@ class EffectDomain(DefaultDomain):
             return ka == kb
         return None
 
+    def _set_elements(self, expr, depth=0):
+        """The elements of the set an expression builds, when every step is decided (a list without duplicates), else None."""
+        if isinstance(expr, tuple) and expr[:1] == ("set",) and len(expr) == 2:
+            expr = expr[1]
+        if isinstance(expr, tuple) and expr[:1] == ("tuple",):
+            out = []
+            for el in expr[1:]:
+                same = [self._same_element(el, o) for o in out]
+                if None in same:
+                    return None
+                if True not in same:
+                    out.append(el)
+            return out
+        if not isinstance(expr, tuple) or not expr or depth > 12:
+            return None
+        tag = expr[0]
+        if tag == "empty":
+            return []
+        if tag == "copy" and len(expr) == 2:
+            return self._set_elements(expr[1], depth + 1)
+        if tag in ("with", "without") and len(expr) == 3:
+            base = self._set_elements(expr[1], depth + 1)
+            if base is None:
+                return None
+            same = [self._same_element(expr[2], o) for o in base]
+            if None in same:
+                return None
+            if tag == "with":
+                return base if True in same else base + [expr[2]]
+            return [o for o, s_ in zip(base, same) if not s_]
+        if tag in ("union", "minus", "meet") and len(expr) == 3:
+            a, b = self._set_elements(expr[1], depth + 1), self._set_elements(expr[2], depth + 1)
+            if a is None or b is None:
+                return None
+            def has(x, seq):
+                v = [self._same_element(x, o) for o in seq]
+                return None if None in v and True not in v else True in v
+            if tag == "union":
+                out = list(a)
+                for x in b:
+                    h = has(x, out)
+                    if h is None:
+                        return None
+                    if not h:
+                        out.append(x)
+                return out
+            keep = []
+            for x in a:
+                h = has(x, b)
+                if h is None:
+                    return None
+                if h == (tag == "meet"):
+                    keep.append(x)
+            return keep
+        return None
+
     def _set_member(self, x, expr, depth=0):
         """Is x a member of the set the expression builds?  True / False / None (not decided)."""
         if not isinstance(expr, tuple) or not expr or depth > 12:
@@ -385,11 +441,11 @@ class EffectDomain(DefaultDomain):
         return EffectDomain._abs(k)
 
     def subscript_multi(self, base, idx, st, fr):
-        """d[k] on an exact dict whose key is known to be absent raises KeyError."""
+        """d[k] on an exact dict whose key is known to be absent raises KeyError (a Counter answers 0)."""
         if isinstance(base, tuple) and base[:1] == ("kwdict",):
             ok, key = self._dkey(idx)
             if ok and all(k != key for k, _ in base[1]):
-                return [exc(("exc", "KeyError"), st)]
+                return [val(("const", 0), st)] if base[2:] == ("counter",) else [exc(("exc", "KeyError"), st)]
         return None
 
     def delete(self, interp, target, st, fr):
@@ -404,7 +460,7 @@ class EffectDomain(DefaultDomain):
             if r.kind == "val":
                 ok, k_ = self._dkey(r.value)
                 if ok:
-                    return r.state.set(key, ("kwdict", tuple((k, v) for k, v in cur[1] if k != k_)))
+                    return r.state.set(key, ("kwdict", tuple((k, v) for k, v in cur[1] if k != k_)) + cur[2:])
                 return r.state.set(key, TOP)
         return None
 
@@ -423,7 +479,7 @@ class EffectDomain(DefaultDomain):
                     items = tuple((k, value if k == k_ else v) for k, v in cur[1])   # a dict keeps the position of an existing key
                 else:
                     items = cur[1] + ((k_, value),)
-                s2 = r.state.set(key, ("kwdict", items))
+                s2 = r.state.set(key, ("kwdict", items) + cur[2:])
                 if key in self.track_stores:
                     log = s2.get("ev.calls", ())
                     s2 = s2.set("ev.calls", log + (("store:" + key, (self._dkey_abs(k_), value), (), "ok"),))
@@ -460,11 +516,11 @@ class EffectDomain(DefaultDomain):
             if f.attr == "items":
                 out.append(val(("kwitems", cur[1]), r.state))
             elif f.attr == "clear":
-                out.append(val(NONE, r.state.set(key, ("kwdict", ()))))
+                out.append(val(NONE, r.state.set(key, ("kwdict", ()) + cur[2:])))
             elif f.attr == "popitem":
                 if cur[1]:
                     k_, v_ = cur[1][-1]
-                    out.append(val(("tuple", self._dkey_abs(k_), v_), r.state.set(key, ("kwdict", cur[1][:-1]))))
+                    out.append(val(("tuple", self._dkey_abs(k_), v_), r.state.set(key, ("kwdict", cur[1][:-1]) + cur[2:])))
                 else:
                     out.append(exc(("exc", "KeyError"), r.state))
             elif f.attr == "keys":
@@ -473,13 +529,45 @@ class EffectDomain(DefaultDomain):
                 out.append(val(("tuple",) + tuple(v for _, v in cur[1]), r.state))
             elif f.attr == "copy":
                 out.append(val(cur, r.state))
+            elif f.attr == "update" and len(a) == 1 and not call.keywords and cur[2:] == ("counter",):
+                # Counter.update(iterable) counts the elements; Counter.update(mapping) adds the counts
+                forced = interp._forced([val(a[0], r.state)], fr)
+                for g in forced:
+                    if g.kind == "exc":
+                        out.append(g)
+                        continue
+                    counts = {k: (v[1] if isinstance(v, tuple) and v[:1] == ("const",) and isinstance(v[1], int) else None) for k, v in cur[1]}
+                    order = [k for k, _ in cur[1]]
+                    ok_ = None not in counts.values()
+                    if isinstance(g.value, tuple) and g.value[:1] == ("kwdict",):
+                        adds = [(k, v[1] if isinstance(v, tuple) and v[:1] == ("const",) and isinstance(v[1], int) else None) for k, v in g.value[1]]
+                    else:
+                        els = interp._exact_elements(g.value)
+                        keys = [self._dkey(x) for x in els] if els is not None else None
+                        adds = [(k, 1) for okk, k in keys] if keys is not None and all(okk for okk, _ in keys) else None
+                    if not ok_ or adds is None or any(n_ is None for _, n_ in adds):
+                        out.append(val(NONE, g.state.set(key, TOP)))
+                        continue
+                    for k, n_ in adds:
+                        if k not in counts:
+                            order.append(k)
+                        counts[k] = counts.get(k, 0) + n_
+                    out.append(val(NONE, g.state.set(key, ("kwdict", tuple((k, ("const", counts[k])) for k in order), "counter"))))
+            elif f.attr == "update" and len(a) == 1 and not call.keywords and isinstance(a[0], tuple) and a[0][:1] == ("kwdict",):
+                merged = dict(cur[1])
+                order = [k for k, _ in cur[1]]
+                for k, v in a[0][1]:
+                    if k not in merged:
+                        order.append(k)
+                    merged[k] = v
+                out.append(val(NONE, r.state.set(key, ("kwdict", tuple((k, merged[k]) for k in order)) + cur[2:])))
             elif name is None:
                 out.append(val(TOP, r.state.set(key, TOP) if f.attr in ("pop", "setdefault", "update") else r.state))
             elif f.attr == "get":
                 out.append(val(d_.get(name, a[1] if len(a) > 1 else NONE), r.state))
             elif f.attr == "pop":
                 if name in d_:
-                    out.append(val(d_[name], r.state.set(key, ("kwdict", tuple((k, v) for k, v in cur[1] if k != name)))))
+                    out.append(val(d_[name], r.state.set(key, ("kwdict", tuple((k, v) for k, v in cur[1] if k != name)) + cur[2:])))
                 elif len(a) > 1:
                     out.append(val(a[1], r.state))
                 else:
@@ -489,7 +577,7 @@ class EffectDomain(DefaultDomain):
                     out.append(val(d_[name], r.state))
                 else:
                     v = a[1] if len(a) > 1 else NONE
-                    out.append(val(v, r.state.set(key, ("kwdict", cur[1] + ((name, v),)))))
+                    out.append(val(v, r.state.set(key, ("kwdict", cur[1] + ((name, v),)) + cur[2:])))
             else:
                 out.append(val(TOP, r.state.set(key, TOP)))
         return out
@@ -969,7 +1057,7 @@ class EffectDomain(DefaultDomain):
         if d in ("set", "frozenset") and len(call.args) <= 1 and not call.keywords:
             if not call.args:
                 return [val(("set", ("empty",)), st)]
-            return [r if r.kind == "exc" else val(("set", ("copy", r.value)), r.state) for r in interp.eval(call.args[0], st, fr)]
+            return [r if r.kind == "exc" else val(("set", ("copy", r.value)), r.state) for r in interp._forced(interp.eval(call.args[0], st, fr), fr)]
         f_ = call.func
         if isinstance(f_, ast.Attribute) and isinstance(f_.value, (ast.Name, ast.Attribute)) and f_.attr in ("update", "difference_update", "add", "discard", "remove", "intersection_update", "copy", "union", "difference") and len(call.args) <= 1:
             key = interp._key_of(f_.value, fr, st)   # a local, or an attribute of self kept in the state
@@ -1087,18 +1175,34 @@ class EffectDomain(DefaultDomain):
             out = []
             pos = [a.value if isinstance(a, ast.Starred) else a for a in call.args]
             for r in interp.eval_list(pos + [k.value for k in call.keywords], st, fr):
-                if r.kind == "exc":
-                    out.append(r)
-                    continue
-                cpos, ckw = self._ctor_args(call.func, fr, tuple(r.value[: len(pos)]), tuple((k.arg or "**", v) for k, v in zip(call.keywords, r.value[len(pos):])))
-                obj = ("new", d.split(".")[-1], cpos, ckw)
-                s2 = r.state
-                if getattr(self, "unique_ctors", False):
-                    # every construction yields a distinct object: number the allocations
-                    n_ = s2.get("ev.alloc", 0)
-                    obj = obj + (n_,)
-                    s2 = s2.set("ev.alloc", n_ + 1)
-                out.append(val(obj, s2))
+                if r.kind == "val" and any(isinstance(v, tuple) and v[:1] == ("lazymap",) for v in r.value):
+                    # a constructor that is handed a map object consumes it: the mapped function runs now, element by element
+                    forced = [val((), r.state)]
+                    for v in r.value:
+                        nxt = []
+                        for acc in forced:
+                            if acc.kind == "exc":
+                                nxt.append(acc)
+                                continue
+                            got = self.force_sequence(interp, v, acc.state, fr) if isinstance(v, tuple) and v[:1] == ("lazymap",) else None
+                            for g in (got if got is not None else [val(v, acc.state)]):
+                                nxt.append(g if g.kind == "exc" else val(acc.value + (g.value,), g.state))
+                        forced = nxt
+                else:
+                    forced = [r]
+                for r in forced:
+                    if r.kind == "exc":
+                        out.append(r)
+                        continue
+                    cpos, ckw = self._ctor_args(call.func, fr, tuple(r.value[: len(pos)]), tuple((k.arg or "**", v) for k, v in zip(call.keywords, r.value[len(pos):])))
+                    obj = ("new", d.split(".")[-1], cpos, ckw)
+                    s2 = r.state
+                    if getattr(self, "unique_ctors", False):
+                        # every construction yields a distinct object: number the allocations
+                        n_ = s2.get("ev.alloc", 0)
+                        obj = obj + (n_,)
+                        s2 = s2.set("ev.alloc", n_ + 1)
+                    out.append(val(obj, s2))
             return out
         if d == "sys.exc_info" and not call.args and d not in self.results:
             # the exception being handled in this frame: (type, value, traceback) tied to that exception
@@ -1162,6 +1266,8 @@ class EffectDomain(DefaultDomain):
             for r in interp.eval(call.args[0], st, fr):
                 out.append(r if r.kind == "exc" else val({"T": TRUE, "F": FALSE}.get(self.truth(r.value), ("bool",)), r.state))
             return out
+        if d in ("Counter", "collections.Counter") and not call.args and not call.keywords:
+            return [val(("kwdict", (), "counter"), st)]
         if d in ("Counter", "collections.Counter") and len(call.args) == 1 and not call.keywords:
             out = []
             known = True
@@ -1177,7 +1283,7 @@ class EffectDomain(DefaultDomain):
                 counts = {}
                 for _, k_ in keys:
                     counts[k_] = counts.get(k_, 0) + 1
-                out.append(val(("kwdict", tuple((k_, ("const", n_)) for k_, n_ in counts.items())), r.state))
+                out.append(val(("kwdict", tuple((k_, ("const", n_)) for k_, n_ in counts.items()), "counter"), r.state))
             if known:
                 return out
         if d == "iter" and len(call.args) == 1 and not call.keywords:
